@@ -146,7 +146,7 @@ def cmd_run(a):
     eng = harness.engine_for(prop)
     n = a.runs or eng.TIERS[prop][tier]
     t0 = time.time()
-    cap = a.wall or (900 if tier == "quick" else 3000)
+    cap = a.wall or (900 if tier == "quick" else 1500)
     deadline = t0 + cap * 0.8
     tmpdir = tempfile.mkdtemp(prefix="simkit-master-", dir=harness.SHM)
     try:
